@@ -289,8 +289,8 @@ end
 
 /-! ## the entry point -/
 
-theorem parseO_ok {i : Bytes} {t : Tag} (h : parseO i = .ok t) : filtexpr i = .ok t [] := by
-  unfold parseO finish at h
+theorem parseO_ok {i : Bytes} {t : Tag} (h : parseCoreO i = .ok t) : filtexpr i = .ok t [] := by
+  unfold parseCoreO finish at h
   cases hf : filtexpr i with
   | ok t' rest =>
     rw [hf] at h
@@ -300,7 +300,7 @@ theorem parseO_ok {i : Bytes} {t : Tag} (h : parseO i = .ok t) : filtexpr i = .o
   | err => rw [hf] at h; cases h
   | panic => rw [hf] at h; cases h
 
-theorem parse_sound {s : Bytes} {t : Tag} (h : parseO s = .ok t) : ∃ f, GLib f s ∧ t.toTlv = toTlv f := by
+theorem parse_sound {s : Bytes} {t : Tag} (h : parseCoreO s = .ok t) : ∃ f, GLib f s ∧ t.toTlv = toTlv f := by
   have h := parseO_ok h
   unfold filtexpr at h
   rcases alt_ok h with h | ⟨_, h⟩
@@ -311,36 +311,36 @@ theorem parse_sound {s : Bytes} {t : Tag} (h : parseO s = .ok t) : ∃ f, GLib f
     simp at e; subst e
     exact ⟨f, Or.inr hg, ht⟩
 
-theorem parse_complete {f : Filter} {s : Bytes} (h : GLib f s) : ∃ t, parseO s = .ok t ∧ t.toTlv = toTlv f := by
+theorem parse_complete {f : Filter} {s : Bytes} (h : GLib f s) : ∃ t, parseCoreO s = .ok t ∧ t.toTlv = toTlv f := by
   rcases h with h | h
   · obtain ⟨t, ht, htl⟩ := filter_complete f s h (s.length + 1) [] (by simp)
     refine ⟨t, ?_, htl⟩
     simp only [List.append_nil] at ht
-    unfold parseO filtexpr
+    unfold parseCoreO filtexpr
     rw [alt_left ht]; rfl
   · obtain ⟨t, ht, htl⟩ := item_complete (r := []) h trivial
     refine ⟨t, ?_, htl⟩
     simp only [List.append_nil] at ht
     obtain ⟨c, x, rfl, hc⟩ := item_head h
     have hne : c ≠ 0x28 := by intro e0; subst e0; revert hc; decide
-    unfold parseO filtexpr
+    unfold parseCoreO filtexpr
     rw [alt_right (filter_err_of_head _ hne), ht]; rfl
 
-theorem parse_some_iff (s : Bytes) (t : Tag) : parse s = some t ↔ parseO s = .ok t := by
-  unfold parse
-  cases h : parseO s <;> simp [Outcome.toOption]
+theorem parse_some_iff (s : Bytes) (t : Tag) : parseCore s = some t ↔ parseCoreO s = .ok t := by
+  unfold parseCore
+  cases h : parseCoreO s <;> simp [Outcome.toOption]
 
 /-- a string-level invariant of the language is a reason for rejection -/
 theorem reject_of_inv {inv : Bytes → Bool} (hinv : ∀ f s, GLib f s → inv s = true) (s : Bytes)
-    (h : inv s = false) : parse s = none := by
-  cases hp : parse s with
+    (h : inv s = false) : parseCore s = none := by
+  cases hp : parseCore s with
   | none => rfl
   | some t =>
     obtain ⟨f, hg, _⟩ := parse_sound ((parse_some_iff s t).mp hp)
     rw [hinv f s hg] at h; cases h
 
-theorem parseO_total (s : Bytes) : parseO s ≠ .panic := by
-  unfold parseO finish
+theorem parseCoreO_total (s : Bytes) : parseCoreO s ≠ .panic := by
+  unfold parseCoreO finish
   have := np_filtexpr s
   cases h : filtexpr s with
   | ok t rest => simp only []; split <;> simp
